@@ -394,6 +394,12 @@ impl Monitor for C07 {
 			let Ok(g) = common::slp_read(fbytes, false, true) else { return out };
 			let (hash, quirk) = (g.hash.clone(), g.quirks.map(|q| q.double_game_end));
 			let Ok(arch) = common::slpp_write(g, comp) else { return out };
+			// reference = what the intact archive serialises to (for a fixture that is not canonical,
+			// e.g. one with unknown events, this differs from the fixture's own bytes)
+			let Some(reference) = common::slpp_read(&arch, false).ok().and_then(|g| common::slp_write(&g).ok()) else {
+				out.inconclusive.push(format!("fixture {}: intact archive does not read/serialise", fname));
+				return out;
+			};
 			let mut offs: Vec<usize> = vec![];
 			let mut b = 0;
 			while b < arch.len() {
@@ -416,7 +422,7 @@ impl Monitor for C07 {
 			offs.sort();
 			offs.dedup();
 			let offs: Vec<usize> = offs.into_iter().take(ctx.tier.pick(60, 400)).collect();
-			let (a2, f2, h2, o2) = (Arc::new(arch), fbytes.clone(), hash.clone(), offs.clone());
+			let (a2, f2, h2, o2) = (Arc::new(arch), reference, hash.clone(), offs.clone());
 			let cur = Arc::new(AtomicUsize::new(0));
 			let cur2 = cur.clone();
 			let a3 = a2.clone();
